@@ -5,6 +5,7 @@ Correspondence: random assemblies x chop placements x insertion orders x corner 
 iteration orders; outcome kind, per-block counts and per-wire counts compared inside Coq.
 """
 import json
+import warnings
 import os
 import subprocess
 import sys
@@ -211,6 +212,73 @@ def determinism_probe(ctx, res, asms, runs):
                                             why="repeated runs of the same script end differently"))
 
 
+def gen_copied_case(rng):
+    """two separate pairs: box A (chopped along `axis` by a cell SIZE) with an un-chopped neighbour B, and A2 - a scaled, moved
+    COPY of A (Operation.copy) - with its own un-chopped neighbour B2.  Every family holds a chop, the counts follow from
+    each family's own chop on its own edge length"""
+    return dict(axis=rng.randrange(3), size=rng.choice([0.11, 0.07, 0.21]), which=rng.choice(["start_size", "end_size"]),
+                ratio=rng.choice([2.0, 3.0, 0.5]), order=rng.sample(range(4), 4), other=rng.choice([2, 3, 5]))
+
+
+def run_copied_case(case, workdir, copied=True):
+    import classy_blocks as cb
+    a = case["axis"]
+    k = case["ratio"]
+
+    def box(lo, size):
+        return cb.Box(list(lo), [lo[i] + size for i in range(3)])
+    A = box([0.0, 0.0, 0.0], 1.0)
+    for ax in range(3):
+        if ax == a:
+            A.chop(ax, **{case["which"]: case["size"]})
+        else:
+            A.chop(ax, count=case["other"])
+    lo_b = [0.0, 0.0, 0.0]
+    lo_b[(a + 1) % 3] = 1.0
+    B = box(lo_b, 1.0)   # shares the face across direction a+1: same family along a
+    B.chop((a + 1) % 3, count=case["other"])
+    far = [10.0, 0.0, 0.0]
+    if copied:
+        A2 = A.copy().scale(k, [0.0, 0.0, 0.0]).translate(far)
+    else:
+        A2 = box(far, k)
+        for ax in range(3):
+            if ax == a:
+                A2.chop(ax, **{case["which"]: case["size"]})
+            else:
+                A2.chop(ax, count=case["other"])
+    lo_b2 = list(far)
+    lo_b2[(a + 1) % 3] += k
+    B2 = box(lo_b2, k)
+    B2.chop((a + 1) % 3, count=case["other"])
+    ops = [A, B, A2, B2]
+    mesh = cb.Mesh()
+    for i in case["order"]:
+        mesh.add(ops[i])
+    path = os.path.join(workdir, "bmd_copied_%d" % os.getpid())
+    with warnings.catch_warnings():
+        warnings.simplefilter("ignore")
+        try:
+            mesh.write(path)
+        except Exception as e:  # noqa: BLE001
+            return ("error:" + type(e).__name__, str(e)[:160])
+    with open(path) as f:
+        text = f.read()
+    counts = sorted(tuple(c) for (_v, c, _g, _s) in gc.parse_blocks(text))
+    return ("ok", counts)
+
+
+def oracle_copied(case, workdir):
+    got = run_copied_case(case, workdir, copied=True)
+    ref = run_copied_case(case, workdir, copied=False)
+    if ref[0] != "ok":
+        return None  # not a statement about copies
+    if got != ref:
+        return ("a model whose second chopped box is a scaled COPY of the first ends %r; built from scratch with the same chops "
+                "it ends %r" % (got, ref))
+    return None
+
+
 def ambiguous_assembly(rng):
     """A family holding two chops of equal count and different expansion: the written expansions depend on which
     neighbour is visited first, so it exposes address-dependent iteration."""
@@ -329,6 +397,14 @@ class C02(Prop):
                 res.oracle_failures.append(dict(kind="order", assembly=asm.to_json(), assembly2=asm2.to_json(), why=why))
         if not res.error:
             self.sandwich(ctx, res)
+        for _ in range(ctx.n(12, 200)):
+            cc = gen_copied_case(ctx.rng)
+            res.evaluations += 1
+            res.count("copied-operation pairs")
+            res.distinct.add("copied:" + json.dumps(cc, sort_keys=True))
+            why = oracle_copied(cc, ctx.work)
+            if why and not any(f.get("kind") == "copied" for f in res.oracle_failures):
+                res.oracle_failures.append(dict(kind="copied", case=cc, why=why, sig="C02:copied-operation:counts-differ"))
         determinism_probe(ctx, res, [ambiguous_assembly(ctx.rng) for _ in range(ctx.n(4, 40))]
                           + [ambiguous_row(ctx.rng) for _ in range(ctx.n(3, 20))], 8)
         return res
@@ -385,9 +461,15 @@ class C02(Prop):
         return fails
 
     def signature(self, rp):
-        return "%s:%s:%s" % (self.pid, rp.get("kind"), (rp.get("why") or "")[:60])
+        return rp.get("sig") or "%s:%s:%s" % (self.pid, rp.get("kind"), (rp.get("why") or "")[:60])
 
     def replay(self, ctx, obj):
+        if obj.get("kind") == "copied":
+            print("input:", json.dumps(obj["case"]))
+            print("implementation (copy):", run_copied_case(obj["case"], ctx.work, True))
+            print("implementation (built from scratch):", run_copied_case(obj["case"], ctx.work, False))
+            print("oracle:", oracle_copied(obj["case"], ctx.work) or "ok")
+            return 0
         asm = gc.Assembly.from_json(obj["assembly"])
         salts = obj.get("salts") or [obj.get("salt")]
         outs = []
